@@ -45,6 +45,7 @@ from edb.common import typeutils
 from . import ast as qlast
 from . import quote as edgeql_quote
 from . import qltypes
+from .parser.grammar import keywords as ql_keywords
 
 
 _BYTES_ESCAPE_RE = re.compile(b'[\\\\\'\x00-\x1f\x7e-\xff]')
@@ -1550,7 +1551,12 @@ class EdgeQLSourceGenerator(codegen.SourceGenerator):
                 self.write(')')
         elif not self.sdlmode:
             self._write_keywords('RESET ')
-            self.write(ident_to_str(node.name))
+            # Unlike SET, RESET only takes a plain identifier token: a
+            # field named like an unreserved keyword must stay quoted.
+            self.write(edgeql_quote.quote_ident(
+                node.name,
+                force=node.name in ql_keywords.unreserved_keywords,
+            ))
 
     def _eval_bool_expr(
         self,
